@@ -120,7 +120,7 @@ def chain_cases(draw):
     m = draw(st.integers(1, 8))
     query = [[draw(gen.finite(0, cloud["side"])), draw(gen.finite(0, cloud["side"]))] for _ in range(m)]
     return dict(ncomp=ncomp, cloud=cloud, cloud_b=cloud_b, steps=steps, data=data, data_b=data_b, weights=weights, query=query,
-                shape=draw(st.sampled_from(blocks.shape_options(n))), orders=draw(build.orders_strategy()))
+                shape=draw(st.sampled_from(blocks.shape_options(n))), orders=draw(build.orders_strategy()), labels=draw(st.sampled_from([None, "kind"])))
 
 
 def has_kind(spec, kinds):
@@ -175,12 +175,17 @@ def check_chain(case, ctx):
     data = [lay(d, shape) for d in case["data"]]
     weights = None if case["weights"] is None else [lay(w, shape) for w in case["weights"]]
     qe, qn = (np.array(v) for v in gen.cloud_query(case["cloud"], case["query"]))
-    spec = dict(kind="chain", steps=case["steps"])
+    spec = dict(kind="chain", steps=case["steps"], labels=case.get("labels"))
     if has_kind(spec, ("linear",)):
         from checks.c01 import scipy_accepts
 
         if not scipy_accepts(e, n):
             ctx.skip("scipy_cannot_triangulate")
+        from scipy.interpolate import LinearNDInterpolator
+
+        pts_ = np.column_stack([np.ravel(e), np.ravel(n)])
+        if np.isnan(LinearNDInterpolator(pts_, np.zeros(pts_.shape[0]))(pts_)).any():
+            ctx.skip("scipy_returns_nan_at_data_points_known_finding_D9")
     chain = build.make_estimator(spec)
     d_arg = pack(data)
     w_arg = None if weights is None else pack(weights)
@@ -207,7 +212,8 @@ def check_chain(case, ctx):
             raise Violation("chain prediction (component %d) differs from the sum of the predictions of hand-threaded clones of its steps: %r vs %r (steps %r)"
                             % (k, np.asarray(got[k]).tolist()[:4], exp[k].tolist()[:4], [s["kind"] for s in case["steps"]]))
     # every step saw exactly what the previous step's filter returned
-    for (name, step), c in zip(chain.steps, clones):
+    for pos, ((name, step), c) in enumerate(zip(chain.steps, clones)):
+        name = "%d (%s)" % (pos, name)
         a, b = fitted_state(step), fitted_state(c)
         ctx.check(set(a) == set(b), "step %s: fitted attributes differ from the hand-threaded clone: %r vs %r", name, sorted(a), sorted(b))
         for key in a:
